@@ -32,6 +32,9 @@ import (
 var c09Rcpts = []string{
 	"a@example.invalid", "b@example.invalid", "A@example.invalid", "user@тест.invalid", "other@тест.invalid",
 	"почта@example.invalid", "почта@тест.invalid", "c@second.invalid",
+	// local parts that are quoted on the wire (the endpoint hands them over without the quotes): a space, and one that
+	// reads as the end of the address followed by a parameter when it is written down as it is
+	"john smith@example.invalid", "x@evil.invalid> ORCPT=rfc822;y@example.invalid",
 }
 
 type c09Tx struct {
@@ -42,12 +45,13 @@ type c09Tx struct {
 }
 
 type c09Scenario struct {
+	HopDSN  bool    `json:"next_hop_dsn,omitempty"`
 	HopUTF8 bool    `json:"next_hop_smtputf8"`
 	Txs     []c09Tx `json:"transactions"`
 }
 
 func c09Gen(t *rapid.T) c09Scenario {
-	sc := c09Scenario{HopUTF8: rapid.Bool().Draw(t, "hop_utf8")}
+	sc := c09Scenario{HopUTF8: rapid.Bool().Draw(t, "hop_utf8"), HopDSN: rapid.Bool().Draw(t, "hop_dsn")}
 	for i, n := 0, rapid.IntRange(1, 4).Draw(t, "ntx"); i < n; i++ {
 		tx := c09Tx{From: rapid.SampledFrom([]string{"sender@example.com", "", "отправитель@тест.invalid"}).Draw(t, "from"), Faults: map[string]string{}}
 		tx.Rcpts = rapid.SliceOfN(rapid.IntRange(0, len(c09Rcpts)-1), 1, 4).Draw(t, "rcpts")
@@ -100,6 +104,14 @@ func (c *c09Collector) SetStatus(rcpt string, err error) {
 	c.mu.Unlock()
 }
 
+func c09Names(idx []int) []string {
+	var out []string
+	for _, i := range idx {
+		out = append(out, c09Rcpts[i])
+	}
+	return out
+}
+
 func c09ASCII(addr string) string {
 	at := strings.LastIndexByte(addr, '@')
 	if at < 0 {
@@ -135,7 +147,7 @@ func c09Target(hopAddr string) *Target {
 }
 
 func c09Run(sc c09Scenario) (vs []ev.V) {
-	hop, err := verifx.StartNextHop(verifx.HopConfig{Name: "mx.example.invalid", UTF8: sc.HopUTF8})
+	hop, err := verifx.StartNextHop(verifx.HopConfig{Name: "mx.example.invalid", UTF8: sc.HopUTF8, DSN: sc.HopDSN})
 	if err != nil {
 		ev.Get("C09").HarnessError("cannot start the next hop: %v", err)
 		return nil
@@ -161,6 +173,7 @@ func c09Run(sc c09Scenario) (vs []ev.V) {
 			}
 		}
 		before := hop.Sessions()
+		txBefore := hop.MailCount()
 		meta := &module.MsgMetadata{ID: fmt.Sprintf("c09-%d", ti), SMTPOpts: smtp.MailOptions{UTF8: tx.UTF8}}
 		d, err := tgt.Start(ctx, meta, tx.From)
 		if err != nil {
@@ -186,6 +199,24 @@ func c09Run(sc c09Scenario) (vs []ev.V) {
 			d.(module.PartialDelivery).BodyNonAtomic(ctx, col, hdr, c09Body(tx.Faults))
 		}
 		d.Commit(ctx)
+		// "under precisely the address it was given": the next hop is asked about the addresses the target was given,
+		// not about something else that the same characters spell when they are written into a command
+		for _, htx := range hop.Transactions() {
+			if htx.N < txBefore {
+				continue // an earlier transaction that was logged only now
+			}
+			for _, seen := range htx.Rcpts {
+				given := false
+				for _, r := range tx.Rcpts {
+					if seen == c09Rcpts[r] || seen == c09ASCII(c09Rcpts[r]) {
+						given = true
+					}
+				}
+				if !given {
+					vs = append(vs, ev.Vf("rcpt:next-hop-asked-about-another-address", "transaction %d (next hop DSN=%v): the target was given %q, the next hop was asked about %q (refused there: %v)", ti, sc.HopDSN, c09Names(tx.Rcpts), seen, htx.RcptErr[seen] != ""))
+				}
+			}
+		}
 		if ti > 0 && hop.Sessions() == before {
 			c09Reused = true
 		}
